@@ -238,7 +238,7 @@ def walk(root):
                     stack.append((v, node, k, path + (k,)))
                 elif isinstance(v, tuple):
                     for e in _symbolic_in_tuple(v):
-                        stack.append((e, None, ('tuple', k), ()))
+                        stack.append((e, None, ('tuple', k), ('<tuple>',)))
 
 
 def _symbolic_in_tuple(t):
